@@ -1,0 +1,16 @@
+//go:build verif
+// +build verif
+
+package luagc
+
+// VerifSetFinalizerFunc replaces the function used by the pools to register Go
+// finalizers (runtime.SetFinalizer by default), so that a simulator can decide
+// when finalizers are delivered.  Passing nil restores the default.
+func VerifSetFinalizerFunc(f func(obj interface{}, finalizer interface{})) {
+	if f == nil {
+		f = defaultSetFinalizer
+	}
+	setFinalizer = f
+}
+
+var defaultSetFinalizer = setFinalizer
